@@ -29,7 +29,7 @@ MAX_TIMEOUTS = {"quick": 2, "thorough": 40}
 REQUIRED = {"geometric_checks": 300, "direction_checks": 150, "direction_checks_wrapped": 15, "distance_checks": 60,
             "cycle_checks": 40, "persistence_checks": 20, "sampled_distances": 20, "multi_restraint_runs": 10,
             "regions_at_box_face": 15, "interleaved_molecule_names": 30, "several_restraints_of_one_kind": 30,
-            "rings_started_inside": 15, "ring_bonds_listed_in_any_order": 20}
+            "rings_started_inside": 15, "ring_bonds_listed_in_any_order": 20, "blocks_with_two_direction_lines": 30}
 TOP = """[ defaults ]
 1 2 no 1.0 1.0
 [ atomtypes ]
@@ -71,7 +71,7 @@ def setup():
 
 def plan(tier, seed):
     n = 780 if tier == "quick" else 6000
-    modes = ["geom", "geom", "geom_edge", "rw", "rw", "rw_small", "dist", "cycle", "cycle", "pers", "mix", "two_dist", "shell"]
+    modes = ["geom", "geom", "geom_edge", "rw", "rw", "rw_small", "dist", "cycle", "cycle", "pers", "mix", "two_dist", "shell", "two_rw"]
     return [[modes[i % len(modes)], i] for i in range(n)]
 
 
@@ -160,10 +160,10 @@ def run_case(cid, rng, workdir):
                                                                       " ".join("%.3f" % x for x in pars))])
             restr.append(("geom", kind, io, c, pars, rn, a, b))
 
-    def add_rw():
+    def add_rw(a=None, b=None):
         rn = rng.choice(["RA", "RB"])
-        a = rng.randint(2, nres)
-        b = rng.randint(a + 1, nres + 1)
+        a = rng.randint(2, nres) if a is None else a
+        b = rng.randint(a + 1, nres + 1) if b is None else b
         ang = rng.choice([30, 45, 60, 90, -120, -150])
         normal = rng.choice([(0, 0, 1), (1, 0, 0), (0, 1, 0), (1, 1, 0)])
         bl.extend(["[ rw_restriction ]", "%s %d %d %d %d %d %d" % ((rn, a, b) + normal + (ang,))])
@@ -201,6 +201,13 @@ def run_case(cid, rng, workdir):
         bump(res, "regions_at_box_face")
     elif mode in ("rw", "rw_small"):
         add_rw()
+    elif mode == "two_rw":
+        # two growth-direction lines in one block, for two stretches of the chain
+        k = rng.randint(3, nres - 1)
+        add_rw(2, k)
+        add_rw(k, nres + 1)
+        restr[-2] = restr[-2] + ("earlier-line",)
+        bump(res, "blocks_with_two_direction_lines")
     elif mode == "dist":
         add_dist()
     elif mode == "two_dist":
@@ -297,7 +304,8 @@ def run_case(cid, rng, workdir):
                         dot = float(np.dot(n, v))
                         ang = float(np.degrees(np.arccos(np.clip(dot / (np.linalg.norm(v) * np.linalg.norm(n)), -1, 1))))
                         if np.sign(dot) != np.sign(r[5]) or ang > abs(r[5]) + 1e-6:
-                            violation(res, "growth-direction-violated:%s" % ("step-across-face" if wrapped else "direct-step"),
+                            violation(res, "growth-direction-violated:%s" % ("earlier-rw_restriction-line-of-the-block" if len(r) > 6 else
+                                                                              "step-across-face" if wrapped else "direct-step"),
                                       "residue %s%d grown from %s: step %s makes %.1f deg with the normal %s (sign %+d), "
                                       "allowed: sign %+d and at most %d deg" %
                                       (r[1], m.nodes[nd]["resid"], par[0], v.round(3).tolist(), ang, n.tolist(), int(np.sign(dot)),
